@@ -11,6 +11,7 @@ Open Scope nat_scope.
 Section P.
 Variable p : prog.
 Notation memob := (memob p).
+Notation dead := (dead p).
 Notation effb := (effb p).
 Notation sigb := (sigb p).
 Notation WF := (WF p).
@@ -28,18 +29,40 @@ Lemma cur_view s s' j : sval (getn s' j) = sval (getn s j) -> cache (getn s' j) 
   cur s' j = cur s j.
 Proof. intros H1 H2. unfold GraphInvariant.cur, cache_val. rewrite H1, H2. reflexivity. Qed.
 
+(* no source is disposed (or revived) between the two states *)
+Definition GoneSame (s s' : state) : Prop := forall j, dead s' j = dead s j.
+Lemma GoneSame_refl s : GoneSame s s. Proof. intros j; reflexivity. Qed.
+Lemma GoneSame_trans a b c : GoneSame a b -> GoneSame b c -> GoneSame a c.
+Proof. intros H1 H2 j. rewrite H2, H1. reflexivity. Qed.
+
 Lemma Lcur_ext s s' i :
-  rlog (getn s' i) = rlog (getn s i) ->
+  rlog (getn s' i) = rlog (getn s i) -> GoneSame s s' ->
   (forall j v, In (j, v, true) (rlog (getn s i)) -> cur s' j = cur s j) ->
   Lcur s i -> Lcur s' i.
-Proof. intros Hr Hc H j v Hin. rewrite Hr in Hin. rewrite (Hc j v Hin). eauto. Qed.
+Proof. intros Hr Hg Hc H j v Hin Hgj. rewrite Hr in Hin. rewrite (Hc j v Hin). rewrite Hg in Hgj. eauto. Qed.
 
 Lemma Lclean_ext s s' i :
-  rlog (getn s' i) = rlog (getn s i) ->
+  rlog (getn s' i) = rlog (getn s i) -> GoneSame s s' ->
   (forall j v, In (j, v, true) (rlog (getn s i)) -> memob j = true ->
                st (getn s j) = Clean -> st (getn s' j) = Clean) ->
   Lclean s i -> Lclean s' i.
-Proof. intros Hr Hc H j v Hin Hm. rewrite Hr in Hin. eapply Hc; eauto. Qed.
+Proof. intros Hr Hg Hc H j v Hin Hm Hgj. rewrite Hr in Hin. rewrite Hg in Hgj. eapply Hc; eauto. Qed.
+
+(* the same when sources may have been disposed in between: whatever is still alive was alive *)
+Definition GoneMono (s s' : state) : Prop := forall j, dead s' j = false -> dead s j = false.
+
+Lemma Lcur_mono s s' i :
+  rlog (getn s' i) = rlog (getn s i) -> GoneMono s s' ->
+  (forall j v, In (j, v, true) (rlog (getn s i)) -> cur s' j = cur s j) ->
+  Lcur s i -> Lcur s' i.
+Proof. intros Hr Hg Hc H j v Hin Hgj. rewrite Hr in Hin. rewrite (Hc j v Hin). apply Hg in Hgj. eauto. Qed.
+
+Lemma Lclean_mono s s' i :
+  rlog (getn s' i) = rlog (getn s i) -> GoneMono s s' ->
+  (forall j v, In (j, v, true) (rlog (getn s i)) -> memob j = true ->
+               st (getn s j) = Clean -> st (getn s' j) = Clean) ->
+  Lclean s i -> Lclean s' i.
+Proof. intros Hr Hg Hc H j v Hin Hm Hgj. rewrite Hr in Hin. apply Hg in Hgj. eapply Hc; eauto. Qed.
 
 Lemma L1_ext s s' i :
   rlog (getn s' i) = rlog (getn s i) -> srcs (getn s' i) = srcs (getn s i) -> L1 s i -> L1 s' i.
@@ -48,13 +71,13 @@ Proof. unfold L1. intros -> ->. auto. Qed.
 (* a resting node keeps its clauses when its own view is unchanged, the values it logged are
    still the current ones and the memos it logged as Clean still are *)
 Lemma Rest_ext s s' i :
-  nview_eq (getn s i) (getn s' i) ->
+  nview_eq (getn s i) (getn s' i) -> GoneSame s s' ->
   (forall j v, In (j, v, true) (rlog (getn s i)) -> cur s' j = cur s j) ->
   (forall j v, In (j, v, true) (rlog (getn s i)) -> memob j = true ->
                st (getn s j) = Clean -> st (getn s' j) = Clean) ->
   Rest s i -> Rest s' i.
 Proof.
-  intros V Hc Hcl (R1 & R2 & R3 & R4 & R5).
+  intros V Hg Hc Hcl (R1 & R2 & R3 & R4 & R5).
   assert (Vr : rlog (getn s' i) = rlog (getn s i)) by apply V.
   assert (Vs : srcs (getn s' i) = srcs (getn s i)) by apply V.
   split; [eapply L1_ext; eauto|]. split; [eapply uncached_ok_view; eauto|].
@@ -66,7 +89,7 @@ Proof.
 Qed.
 
 Lemma Frame_ext t s s' k :
-  rlog (getn s' k) = rlog (getn s k) -> srcs (getn s' k) = srcs (getn s k) ->
+  rlog (getn s' k) = rlog (getn s k) -> srcs (getn s' k) = srcs (getn s k) -> GoneSame s s' ->
   (memob k = true -> st (getn s k) <> Clean -> st (getn s' k) <> Clean) ->
   (effb k = true -> edirty (getn s k) = false -> edirty (getn s' k) = false) ->
   (forall j v, In (j, v, true) (rlog (getn s k)) -> cur s' j = cur s j) ->
@@ -74,7 +97,7 @@ Lemma Frame_ext t s s' k :
                st (getn s j) = Clean -> st (getn s' j) = Clean) ->
   Frame t s k -> Frame t s' k.
 Proof.
-  intros Vr Vs Vst Vd Hc Hcl (F1 & F2 & F3 & F4 & F5 & F6 & F7).
+  intros Vr Vs Hg Vst Vd Hc Hcl (F1 & F2 & F3 & F4 & F5 & F6 & F7).
   split; [eapply Lcur_ext; eauto|]. split; [eapply Lclean_ext; eauto|].
   split; [intros x; rewrite Vs, Vr; auto|]. split; [exact F4|]. split; [exact F5|].
   split; [intros Hm; apply Vst; auto|intros He; apply Vd; auto].
@@ -93,6 +116,8 @@ Proof.
     destruct (cache (getn s x)) eqn:Ec; [|destruct (R2 eq_refl); congruence].
     assert (Hsrc : In y (srcs (getn s x))) by (eapply wf_sub_src; eauto; apply I).
     rewrite R1 in Hsrc. apply in_tracked_of in Hsrc as (v & Hv).
+    assert (Hgy : dead s y = false).
+    { destruct (dead s y) eqn:E; auto. rewrite (wf_gone p s (inv_wf _ _ _ _ I) y E) in Hx. destruct Hx. }
     apply Hn. eapply R4; eauto. split; auto. congruence.
 Qed.
 
@@ -186,6 +211,9 @@ Proof.
   intros Hs A. split; try apply A. intros i Hm Hn. apply A; auto.
 Qed.
 
+Lemma PullRel_GoneSame b stk ex s s' : PullRel b stk ex s s' -> GoneSame s s'.
+Proof. intros P j. apply dead_view. destruct (pr_eff _ _ _ _ _ P j) as (_&_&_&H&_). exact H. Qed.
+
 (* MarkRel and StableM give a PullRel for any bound *)
 Lemma MarkRel_PullRel b stk ex s s' :
   MarkRel s s' -> StableM p s s' -> PullRel b stk ex s s'.
@@ -208,7 +236,7 @@ Definition USpec (n : nat) (U : updater) : Prop :=
     U c j s = (s', ch) ->
     Inv stk t s' /\ PullRel (S j) stk None s s' /\
     subs (getn s' j) = subs (getn s j) /\
-    (memob j = true -> st (getn s' j) = Clean /\ cache (getn s' j) <> None) /\
+    (memob j = true -> dead s j = false -> st (getn s' j) = Clean /\ cache (getn s' j) <> None) /\
     (ch = true -> forall k, In j (tracked_of (rlog (getn s' k))) -> since (getn s' k) <> []).
 
 (* [Growth]: what a read (or an evaluation) appends to the log of the running body replays to
@@ -224,8 +252,8 @@ Definition RSpec (n : nat) (R : reader) : Prop :=
     j < n -> j < t -> effb j = false -> CtxDep c j -> Inv stk t s -> ctx_ok stk c -> TopOK c s ->
     R m c j s = (s', v) ->
     Inv stk t s' /\ TopOK c s' /\ PullRel (S j) stk (fst c) s s' /\
-    (memob j = true -> st (getn s' j) = Clean /\ cache (getn s' j) = Some v) /\
-    (sigb j = true -> v = sval (getn s' j)) /\
+    (memob j = true -> dead s j = false -> st (getn s' j) = Clean /\ cache (getn s' j) = Some v) /\
+    (sigb j = true -> dead s j = false -> v = sval (getn s' j)) /\
     Growth c s s' (fun D => forall rest, rlvl p n m (snd c) j (D ++ rest) = Some (v, rest)).
 
 End P.
